@@ -232,10 +232,25 @@ def _primes_upto(n):
     return [i for i in range(n + 1) if sieve[i]]
 
 
+def _interp(kind):
+    """Fixed analytic interpretations of uninterpreted function symbols (any identity between expressions must survive them)."""
+    def f(*a):
+        t = sum((i + 1) * x for i, x in enumerate(a))
+        if kind == 0:
+            return mpmath.sin(t) * mpmath.exp(a[0] / 3) + mpf(1) / 7
+        if kind == 1:
+            return mpmath.cos(2 * t + mpf(1) / 3) + a[0] * a[0] / 5
+        return mpmath.exp(t / 4) - mpmath.sin(t / 2) * a[-1]
+    return f
+
+
+DEFAULT_FUNCS = {'f': _interp(0), 'g': _interp(1), 'h': _interp(2), 'F': _interp(1), 'G': _interp(2)}
+
+
 class Evaluator:
     def __init__(self, env=None, funcs=None):
         self.env = env or {}
-        self.funcs = funcs or {}
+        self.funcs = DEFAULT_FUNCS if funcs is None else funcs
 
     # ---- numeric value of a node
     def ev(self, t):
